@@ -204,14 +204,6 @@ Proof.
   constructor; [exact H3 | exact Hnd].
 Qed.
 
-Lemma tok_get_five k tok : tok_xml_ok tok -> In k five_keys ->
-  attr_get k ([(a_start, dec 0); (a_span, v_one); (a_cat, [])] ++ tok) = Some (tok_get_default k [] tok).
-Proof.
-  intros (_ & Hfive & _) Hk. destruct (attr_get_in k tok (Hfive k Hk)) as [v Hv].
-  unfold tok_get_default. unfold attr_get in Hv. rewrite Hv.
-  simpl in Hk. destruct Hk as [<-|[<-|[<-|[<-|[<-|[]]]]]]; simpl; exact Hv.
-Qed.
-
 Lemma rx_leaf c tok o s start : wf puncts c -> tok_xml_ok tok ->
   rx_node parse guess (xml_node (Leaf c tok o s) start) = Some (Leaf c (five tok) s_lex s_lexsym).
 Proof.
